@@ -525,6 +525,69 @@ def asm_all():
     pins = re.findall(r"pinsrw\s+xmm(\d),\s*word \[block \+ (\d+) \* SIZEOF_WORD\],\s*(\d)", txt)
     P("Definition jchuff_sse2_pinsrw : list (Z * Z * Z) := [%s].   (* register, block index, lane *)" % "; ".join("(%s, %s, %s)" % p for p in pins))
     P()
+    # ---- zero-AC ("DC only") shortcut of the IDCT kernels: which coefficient rows enter the OR chain that is tested
+    P("(* ---- IDCT kernels: coefficient rows whose OR is tested before the all-AC-zero shortcut is taken ---- *)")
+    for fname, tag in (("jidctint-sse2.asm", "jidctint_sse2"), ("jidctint-avx2.asm", "jidctint_avx2"),
+                       ("jidctfst-sse2.asm", "jidctfst_sse2"), ("jidctred-sse2.asm", "jidctred_sse2_4x4")):
+        txt = re.sub(r";.*", "", rd("simd/x86_64/" + fname))
+        m = re.search(r"%ifndef\s+NO_ZERO_COLUMN_TEST_\w+\s*\n(.*?)\n\s*jnz\s+(?:short|near)?\s*\.columnDCT\s*\n(.*?)\n\s*jnz\s+(?:short|near)?\s*\.columnDCT", txt, re.S)
+        if not m:
+            die(fname + ": zero-column test (two 'jnz .columnDCT') not found")
+        regs = {}
+        tested = None
+        def blk(op):
+            mm = re.search(r"\[(X|Y)MMBLOCK\((\d+),\s*0,\s*(?:rsi|r11),\s*SIZEOF_JCOEF\)\]", op)
+            if not mm:
+                return None
+            n = int(mm.group(2))
+            return ({n}, {n + 1}) if mm.group(1) == "Y" else ({n}, set())
+        def rn(op):
+            mm = re.fullmatch(r"[xy]mm(\d+)", op.strip())
+            return int(mm.group(1)) if mm else None
+        for line in m.group(2).split("\n"):
+            line = line.strip()
+            if not line:
+                continue
+            mm = re.match(r"(\w+)\s+(.*)$", line)
+            ops, depth, cur = [], 0, ""
+            for ch in mm.group(2):
+                if ch in "([":
+                    depth += 1
+                elif ch in ")]":
+                    depth -= 1
+                if ch == "," and depth == 0:
+                    ops.append(cur.strip()); cur = ""
+                else:
+                    cur += ch
+            ops.append(cur.strip())
+            mn = mm.group(1)
+            if mn in ("movdqa", "vmovdqu", "vmovdqa", "movdqu") and blk(ops[1]):
+                regs[rn(ops[0])] = blk(ops[1])
+            elif mn == "por":
+                src = blk(ops[1]) or regs.get(rn(ops[1]))
+                if src is None or rn(ops[0]) not in regs:
+                    die("%s: zero-column test: cannot follow '%s'" % (fname, line))
+                d = regs[rn(ops[0])]
+                regs[rn(ops[0])] = (d[0] | src[0], d[1] | (src[1] if ops[0].startswith("y") else set()))
+            elif mn == "vpor":
+                a = regs.get(rn(ops[1])); b = blk(ops[2]) or regs.get(rn(ops[2]))
+                if a is None or b is None:
+                    die("%s: zero-column test: cannot follow '%s'" % (fname, line))
+                y = ops[0].startswith("y")
+                regs[rn(ops[0])] = (a[0] | b[0], (a[1] | b[1]) if y else set())
+            elif mn == "vextracti128" and ops[2] == "1":
+                regs[rn(ops[0])] = (set(regs[rn(ops[1])][1]), set())
+            elif mn in ("packsswb", "vpacksswb"):
+                if tested is None:
+                    tested = rn(ops[0]) if mn == "packsswb" else rn(ops[1])
+            elif mn in ("movd", "test", "mov", "or"):
+                continue
+            else:
+                die("%s: zero-column test contains an instruction the row tracker does not know: %s" % (fname, line))
+        if tested is None or tested not in regs:
+            die(fname + ": zero-column test: tested register not found")
+        P("Definition zero_ac_rows_%s : list Z := [%s]." % (tag, "; ".join(map(str, sorted(regs[tested][0])))))
+    P()
     # h2v2 merged upsampling = two calls of the h2v1 routine: which luma/output row each call handles, in call order
     for isa in ("sse2", "avx2"):
         fname = "jdmrgext-%s.asm" % isa
